@@ -461,32 +461,36 @@ def emit_extract(gen, ex, repo_root, unit):
     out_first = len(gen.lines)
     props = [p for p in str(ex.opts.get('props', '')).split(',') if p]
     buf_line = ''
-    buf_origin = None
+    buf_repo = None     # origin of the first non-blank repo text on the current output line
+    buf_splice = None   # origin of the first non-blank splice text on the current output line
+    buf_any = None
 
     def flush():
-        nonlocal buf_line, buf_origin
+        nonlocal buf_line, buf_repo, buf_splice, buf_any
         gen.lines.append(buf_line)
-        gen.origin.append(buf_origin or {'kind': 'repo', 'file': ex.file, 'line': first_line, 'fn': ex.name})
-        buf_line, buf_origin = '', None
+        gen.origin.append(buf_splice or buf_repo or buf_any or
+                          {'kind': 'repo', 'file': ex.file, 'line': first_line, 'fn': ex.name})
+        buf_line, buf_repo, buf_splice, buf_any = '', None, None, None
 
     for (k, t, off, meta) in segs:
         parts = t.split('\n')
         for pi, part in enumerate(parts):
             if pi > 0:
                 flush()
-            if part != '' or buf_origin is None:
-                if k in ('src', 'rep'):
-                    o = {'kind': 'repo', 'file': ex.file, 'fn': ex.name,
-                         'line': line_of(src, start + off) + (pi if k == 'src' else 0)}
-                    if k == 'rep':
-                        o['rewritten'] = True
-                    # repo text wins over splice for line attribution only if no splice text is on the line
-                    if buf_origin is None or (part.strip() and buf_origin.get('kind') != 'splice'):
-                        buf_origin = o
-                else:
-                    if part.strip() or buf_origin is None:
-                        buf_origin = {'kind': 'splice', 'unit': unit, 'fn': ex.name,
-                                      'block': meta.kind, 'arg': meta.arg, 'line': meta.lineno + 1 + pi - (1 if meta.kind in ('spec', 'loop') else 0)}
+            if k in ('src', 'rep'):
+                o = {'kind': 'repo', 'file': ex.file, 'fn': ex.name,
+                     'line': line_of(src, start + off) + (pi if k == 'src' else 0)}
+                if k == 'rep':
+                    o['rewritten'] = True
+                if part.strip() and buf_repo is None:
+                    buf_repo = o
+            else:
+                o = {'kind': 'splice', 'unit': unit, 'fn': ex.name, 'block': meta.kind, 'arg': meta.arg,
+                     'line': meta.lineno + pi + (0 if meta.kind in ('spec', 'loop') else 1)}
+                if part.strip() and buf_splice is None:
+                    buf_splice = o
+            if buf_any is None:
+                buf_any = o
             buf_line += part
     flush()
     out_last = len(gen.lines) - 1
